@@ -217,7 +217,7 @@ def replay_and_validate(pid, groups, wd, verdict, check_totality=False, workers=
     if traces:
         k = sorted(traces)[len(traces) // 2]
         stats["samples"] = [dict(config=groups[pathcfg[k]][0]["name"], behaviour=paths[k], real_events=len(traces[k]))]
-    if vlib.tier() == "thorough" and not viols and per:
+    if not viols and per:
         stats["selftest"] = selftest(wd, groups, per, traces, check_totality)
     return stats
 
@@ -450,7 +450,7 @@ def run(pid):
         exhaustive=False,
         configs=cfg_evidence,
         real_events=stats["events"],
-        drift_traces=stats["drift"], drift_kinds=stats["drift_kinds"], binding_selftest=stats.get("selftest", "thorough tier only"),
+        drift_traces=stats["drift"], drift_kinds=stats["drift_kinds"], binding_selftest=stats.get("selftest"),
         monitors=MONITORS[pid],
         known_findings_seen=sorted(verdict.known_seen),
         rule="behaviours = maximal paths of the history variable over every explored edge of the bounded model (edges configs) and "
